@@ -169,4 +169,59 @@ theorem hashJoin_joinWith_perm (g : Row → List Row → List Out) (hg : ∀ l m
   rw [this]
   exact classes_perm (fun o : Out => h o.1 % n) n _ (fun _ _ => Nat.mod_lt _ hn)
 
+/-- rows whose key falls in class `p` of an arbitrary classification of the keys (hash bucket, division
+    interval, …) -/
+def partBy (c : Nat → Nat) (p : Nat) (xs : List Row) : List Row := xs.filter fun x => c x.1 == p
+
+/-- partition-wise join of two frames co-partitioned by `c` into `n` classes -/
+def classJoin (join : List Row → List Row → List Out) (c : Nat → Nat) (n : Nat) (L R : List Row) : List Out :=
+  (List.range n).flatMap fun p => join (partBy c p L) (partBy c p R)
+
+theorem part_eq_partBy (h : Nat → Nat) (n p : Nat) (xs : List Row) : part h n p xs = partBy (fun k => h k % n) p xs := rfl
+
+theorem matching_partBy (c : Nat → Nat) (p : Nat) (l : Row) (R : List Row) (hl : c l.1 = p) :
+    matching l (partBy c p R) = matching l R := by
+  unfold matching partBy
+  rw [List.filter_filter]
+  apply List.filter_congr
+  intro r _
+  by_cases hr : r.1 = l.1
+  · simp [hr, hl]
+  · simp [hr]
+
+theorem joinWith_partBy (g : Row → List Row → List Out) (hg : ∀ l ms o, o ∈ g l ms → o.1 = l.1)
+    (c : Nat → Nat) (p : Nat) (R : List Row) :
+    ∀ L : List Row, joinWith g (partBy c p L) (partBy c p R) = (joinWith g L R).filter fun o => c o.1 == p
+  | [] => rfl
+  | l :: L => by
+    have ih := joinWith_partBy g hg c p R L
+    unfold joinWith at ih ⊢
+    by_cases hl : c l.1 = p
+    · have hpart : partBy c p (l :: L) = l :: partBy c p L := by simp [partBy, hl]
+      rw [hpart, List.flatMap_cons, List.flatMap_cons, List.filter_append, ih, matching_partBy c p l R hl]
+      congr 1
+      symm
+      rw [List.filter_eq_self]
+      intro o ho
+      simp [hg l _ o ho, hl]
+    · have hpart : partBy c p (l :: L) = partBy c p L := by simp [partBy, hl]
+      rw [hpart, List.flatMap_cons, List.filter_append, ih]
+      have : (g l (matching l R)).filter (fun o => c o.1 == p) = [] := by
+        rw [List.filter_eq_nil_iff]
+        intro o ho
+        simp [hg l _ o ho, hl]
+      rw [this, List.nil_append]
+
+/-- **partition-wise join = global join given co-location** (any classification of the keys into `n` classes:
+    hash buckets for the hash join, division intervals for the index join on aligned divisions) -/
+theorem classJoin_joinWith_perm (g : Row → List Row → List Out) (hg : ∀ l ms o, o ∈ g l ms → o.1 = l.1)
+    (c : Nat → Nat) (n : Nat) (hc : ∀ k, c k < n) (L R : List Row) :
+    (classJoin (joinWith g) c n L R).Perm (joinWith g L R) := by
+  unfold classJoin
+  have : (fun p => joinWith g (partBy c p L) (partBy c p R)) =
+      fun p => (joinWith g L R).filter fun o => (fun o : Out => c o.1) o == p := by
+    funext p; exact joinWith_partBy g hg c p R L
+  rw [this]
+  exact classes_perm (fun o : Out => c o.1) n _ (fun o _ => hc o.1)
+
 end Dask.Join
